@@ -1,0 +1,21 @@
+# Verification hooks (googlefonts/picosvg is otherwise unchanged by them).
+#
+# Disabled unless the environment variable PICOSVG_VERIF=1 is set when picosvg is
+# imported; when disabled every call site is a single false `if`.  A harness installs a
+# sink with install(); emit() hands it (event name, fields).
+
+import os
+
+ENABLED = os.environ.get("PICOSVG_VERIF") == "1"
+
+_sink = None
+
+
+def install(sink):
+    global _sink
+    _sink = sink
+
+
+def emit(event, **fields):
+    if _sink is not None:
+        _sink(event, fields)
